@@ -36,6 +36,7 @@ type replicator struct {
 	maxLagTime   time.Duration
 	lastCaughtUp time.Time
 	lastSeen     time.Time
+	lastOffset   int64 // Latest offset the replica reported having
 	requests     chan replicationRequest
 	mu           sync.RWMutex
 	leader       string
@@ -51,6 +52,7 @@ func newReplicator(epoch uint64, replica string, p *partition) *replicator {
 		replica:    replica,
 		partition:  p,
 		requests:   make(chan replicationRequest, 1),
+		lastOffset: -1,
 		maxLagTime: p.srv.config.Clustering.ReplicaMaxLagTime,
 		leader:     p.srv.config.Clustering.ServerID,
 	}
@@ -84,6 +86,7 @@ func (r *replicator) start(stop <-chan struct{}) {
 
 		r.mu.Lock()
 		r.lastSeen = req.received
+		r.lastOffset = req.Offset
 		r.mu.Unlock()
 
 		// Update the ISR replica's latest offset for the partition. This is
@@ -172,7 +175,7 @@ func (r *replicator) tick(stop <-chan struct{}) {
 				r.replica, r.partition, lastSeenElapsed, lastCaughtUpElapsed)
 
 			r.shrinkISR()
-		} else if !outOfSync && !r.partition.inISR(r.replica) {
+		} else if !outOfSync && !r.partition.inISR(r.replica) && r.hasAllCommitted() {
 			// Add replica back into ISR.
 			r.partition.srv.logger.Infof("Replica %s for partition %s caught back up with leader, "+
 				"rejoining ISR", r.replica, r.partition)
@@ -181,6 +184,17 @@ func (r *replicator) tick(stop <-chan struct{}) {
 
 		timer.Reset(computeTick(lastCaughtUpElapsed, r.maxLagTime))
 	}
+}
+
+// hasAllCommitted indicates if the replica has reported having every committed
+// message. This is required for adding it back into the ISR since it can be
+// elected leader as soon as it is in the ISR, and having caught up at some
+// point in the last maxLagTime does not mean it has the messages committed
+// since.
+func (r *replicator) hasAllCommitted() bool {
+	r.mu.RLock()
+	defer r.mu.RUnlock()
+	return r.lastOffset >= r.partition.log.HighWatermark()
 }
 
 // shrinkISR sends a ShrinkISR request to the controller to remove the replica
